@@ -48,6 +48,9 @@ pub struct Case {
     pub trailers: bool,
     /// decoder told about the encoding even when the response opted out of compression
     pub announce_when_disabled: bool,
+    /// the body hands every DATA frame to the decoder as a two-segment `Buf`, split after len * seg / 256 bytes
+    #[serde(default)]
+    pub seg: u8,
 }
 
 pub fn msg_spec(bs: usize, yt: usize, prost: bool) -> BoxedStrategy<MsgSpec> {
@@ -83,9 +86,10 @@ pub fn strategy() -> BoxedStrategy<Case> {
                 gen::pend_pattern(5),
                 any::<bool>(),
                 any::<bool>(),
+                prop_oneof![2 => Just(0u8), 3 => any::<u8>()],
             )
                 .prop_map(
-                    move |(msgs, src_pend, alt_yield, role, enc, disable, sizes, targeted, body_pend, trailers, ann)| Case {
+                    move |(msgs, src_pend, alt_yield, role, enc, disable, sizes, targeted, body_pend, trailers, ann, seg)| Case {
                         prost,
                         buffer_size: bs,
                         yield_threshold: yt,
@@ -100,6 +104,7 @@ pub fn strategy() -> BoxedStrategy<Case> {
                         body_pend,
                         trailers,
                         announce_when_disabled: ann,
+                        seg,
                     },
                 )
         })
@@ -246,6 +251,8 @@ pub fn run(c: &Case, o: &mut Outcome) -> Result<(), Failure> {
     let trailers = if c.role == Role::Server && c.trailers { Some(ok_trailers()) } else { None };
     let body = script_body(&chunks, &c.body_pend, trailers);
     let probe = body.probe.clone();
+    let body = crate::infra::script::SegBody::new(body, c.seg);
+    o.label_if(c.seg != 0 && chunks.iter().any(|ch| ch.len() * c.seg as usize / 256 > 0), "data_frame_in_two_buf_segments");
     let budget = 64 + 8 * (chunks.len() * 4 + n);
     macro_rules! decode_and_compare {
         ($decoder:expr, $expected:expr) => {{
@@ -410,5 +417,6 @@ pub fn from_bytes(data: &[u8]) -> Option<Case> {
         body_pend,
         trailers,
         announce_when_disabled: ann,
+        seg: (bs as u8) ^ 0x6b,
     })
 }
